@@ -142,8 +142,8 @@ class PropertyRun:
                 "KNOWN-FINDING: property=%s %s %s::%s [%s] %s"
                 % (self.prop, inst.rule, inst.file, inst.function, inst.construct, inst.what)
             )
-        # clear stale replay files of this property
-        if os.path.isdir(REPLAY_DIR):
+        # clear stale replay files of this property (never while replaying one of them)
+        if os.path.isdir(REPLAY_DIR) and replay_only is None:
             for fn in os.listdir(REPLAY_DIR):
                 if fn.startswith(self.prop + "-"):
                     try:
@@ -152,6 +152,8 @@ class PropertyRun:
                         pass
         for k, inst in enumerate(new_violations):
             path = os.path.join(REPLAY_DIR, "%s-%d.json" % (self.prop, k))
+            if replay_only is not None:
+                continue
             write_json(
                 path,
                 {
